@@ -19,7 +19,13 @@ impl EventLog {
         if let Some(parent) = path.parent() {
             fs::create_dir_all(parent)?;
         }
-        let file = OpenOptions::new().create(true).append(true).open(&path)?;
+        let mut file = OpenOptions::new().create(true).append(true).open(&path)?;
+        // A process that died between a frame's body and its newline leaves a dangling last
+        // line; terminate it so the next frame starts on a line of its own.
+        if !ends_with_newline(&path)? {
+            file.write_all(b"\n")?;
+            file.flush()?;
+        }
         Ok(Self {
             path,
             writer: Mutex::new(BufWriter::new(file)),
@@ -78,6 +84,19 @@ impl EventLog {
     pub fn replay_session(&self, session_id: &str) -> io::Result<Vec<Event>> {
         self.replay_stream(StreamKind::Session, session_id)
     }
+}
+
+fn ends_with_newline(path: &Path) -> io::Result<bool> {
+    use std::io::{Read, Seek, SeekFrom};
+    let mut file = File::open(path)?;
+    let len = file.metadata()?.len();
+    if len == 0 {
+        return Ok(true);
+    }
+    file.seek(SeekFrom::Start(len - 1))?;
+    let mut last = [0u8; 1];
+    file.read_exact(&mut last)?;
+    Ok(last[0] == b'\n')
 }
 
 pub fn write_snapshot(
